@@ -705,3 +705,50 @@ def gen_comparisons(repo):
     src, errors = _gen_comparisons_0(repo)
     d, e2 = gen_bool(repo)
     return src.replace('\nend PMV.Gen.Cmp\n', '\n' + d + '\nend PMV.Gen.Cmp\n'), errors + e2
+
+
+# ======================================================================================================
+# Qube._compatible_arg: which tests decide "cannot be equal" for operands of the same class, in order.
+# Accepted: `if not isinstance(arg, type(self)): <conversion attempt>` with an `else:` holding a sequence of
+# `if <test>: return None`, then `try: (self, arg) = Qube.broadcast(self, arg) except ValueError: return None`, `return arg`.
+
+COMPAT_TESTS = {'not Units.can_match(self._units_, arg._units_)': '.units', 'self._item_ != arg._item_': '.item'}
+
+
+def gen_compat(repo):
+    try:
+        tree = ast.parse(open(os.path.join(repo, 'polymath/qube.py')).read())
+        f = find_func(tree, '_compatible_arg', 'Qube')
+        checks = []
+        body = [st for st in f.body if not (isinstance(st, ast.Expr) and isinstance(st.value, ast.Constant))]
+        if len(body) != 3 or not isinstance(body[0], ast.If) or ast.unparse(body[0].test) != 'not isinstance(arg, type(self))':
+            raise Untranslatable('top-level structure')
+        for st in body[0].orelse:
+            if isinstance(st, ast.If) and not st.orelse and len(st.body) == 1 and isinstance(st.body[0], ast.Return) \
+                    and ast.unparse(st.body[0].value) == 'None' and ast.unparse(st.test) in COMPAT_TESTS:
+                checks.append(COMPAT_TESTS[ast.unparse(st.test)])
+            else:
+                raise Untranslatable('same-class test ' + ast.unparse(st).split('\n')[0])
+        t = body[1]
+        if not (isinstance(t, ast.Try) and len(t.body) == 1 and ast.unparse(t.body[0]) in ('(self, arg) = Qube.broadcast(self, arg)', 'self, arg = Qube.broadcast(self, arg)')
+                and len(t.handlers) == 1 and ast.unparse(t.handlers[0].type) == 'ValueError'
+                and len(t.handlers[0].body) == 1 and ast.unparse(t.handlers[0].body[0]) == 'return None'
+                and not t.orelse and not t.finalbody):
+            raise Untranslatable('broadcast test')
+        checks.append('.broadcast')
+        if not (isinstance(body[2], ast.Return) and ast.unparse(body[2].value) == 'arg'):
+            raise Untranslatable('final return')
+        return ('/-- regenerated from polymath/qube.py:%d `_compatible_arg` (operands of one class): the tests that answer "cannot be equal" -/\n'
+                'def compat_checks : List CompatCheck := [%s]\n' % (f.lineno, ', '.join(checks))), []
+    except (Untranslatable, SyntaxError, OSError) as e:
+        return ('/-- NOT TRANSLATABLE (%s): placeholder that fails its obligation -/\ndef compat_checks : List CompatCheck := []\n'
+                % str(e).replace('-/', '- /')), ['polymath/qube.py:_compatible_arg: %s' % e]
+
+
+_gen_comparisons_1 = gen_comparisons
+
+
+def gen_comparisons(repo):
+    src, errors = _gen_comparisons_1(repo)
+    d, e2 = gen_compat(repo)
+    return src.replace('\nend PMV.Gen.Cmp\n', '\n' + d + '\nend PMV.Gen.Cmp\n'), errors + e2
